@@ -247,6 +247,40 @@ def run_harness(binp, command, job_lines, timeout=900, args=()):
     return p.stdout.split("\n")[:-1] if p.stdout.endswith("\n") else p.stdout.split("\n")
 
 
+def run_harness_robust(binp, command, job_lines, timeout=900, args=(), chunk=200):
+    """Like run_harness, but a job that kills the harness process (fatal error such as a stack
+    overflow, or a hang) yields None for that job instead of failing the whole run."""
+    out = [None] * len(job_lines)
+
+    def run_range(lo, hi, tmo):
+        try:
+            p = subprocess.run([binp, command, *args], input="\n".join(job_lines[lo:hi]) + "\n",
+                               stdout=subprocess.PIPE, stderr=subprocess.PIPE, text=True, timeout=tmo, env=GOENV)
+            lines = p.stdout.split("\n")
+            if lines and lines[-1] == "":
+                lines.pop()
+            if p.returncode == 0 and len(lines) == hi - lo:
+                out[lo:hi] = lines
+                return True
+        except subprocess.TimeoutExpired:
+            pass
+        return False
+
+    def solve(lo, hi, tmo):
+        if run_range(lo, hi, tmo):
+            return
+        if hi - lo == 1:
+            out[lo] = None
+            return
+        mid = (lo + hi) // 2
+        solve(lo, mid, max(20, tmo // 2))
+        solve(mid, hi, max(20, tmo // 2))
+
+    ranges = [(i, min(i + chunk, len(job_lines))) for i in range(0, len(job_lines), chunk)]
+    parallel(lambda r: solve(r[0], r[1], timeout), ranges)
+    return out
+
+
 # ------------------------------------------------------------------ findings / verdicts
 def load_known_findings():
     p = os.path.join(VERIF, "known_findings.json")
